@@ -16,7 +16,9 @@
 #include <stdio.h>
 #include <stdlib.h>
 #include <string.h>
+#include <sys/ioctl.h>
 #include <sys/sendfile.h>
+#define C11_FICLONE _IOW(0x94, 9, int)
 #include <sys/stat.h>
 #include <sys/sysmacros.h>
 #include <sys/statfs.h>
@@ -518,7 +520,7 @@ int main(int argc, char** argv) {
       }
       printf("closedir %s\n", rs(r));
     } else if (IS("copyfile", 4)) {
-      int excl = atoi(A(3));
+      int fl = atoi(A(3)), excl = fl & 1;   /* 1 = EXCL, 2 = FICLONE, 4 = FICLONE_FORCE */
       if (mode == POSIX) {
         struct stat ss, ds; int s = open(A(1), O_RDONLY | O_CLOEXEC), d = -1;
         r = 0;
@@ -538,17 +540,24 @@ int main(int argc, char** argv) {
               ts[0] = ss.st_atim; ts[1] = ss.st_mtim;
               if (futimens(d, ts)) r = -errno;
               if (r == 0 && fchmod(d, ss.st_mode)) r = -errno;
+              /* oracle for the clone flags: FICLONE = try to reflink, else plain copy; FICLONE_FORCE = reflink or fail.
+                 Either way a successful copy leaves dst an exact copy of src (the truncate above already happened) */
+              if (r == 0 && (fl & 6)) {
+                if (ioctl(d, C11_FICLONE, s) == 0) goto copied;
+                if (fl & 4) r = -errno;
+              }
               while (r == 0 && (k = read(s, buf, sizeof buf)) != 0) {
                 if (k < 0) { r = -errno; break; }
                 if (write(d, buf, k) != k) { r = -errno; break; }
               }
+              copied: ;
             }
           }
           close(s);
           if (d >= 0) { close(d); if (r != 0) unlink(A(2)); }
         }
       } else {
-        r = fin(uv_fs_copyfile(loop, &req, A(1), A(2), excl ? UV_FS_COPYFILE_EXCL : 0, CB), &req);
+        r = fin(uv_fs_copyfile(loop, &req, A(1), A(2), (fl & 1 ? UV_FS_COPYFILE_EXCL : 0) | (fl & 2 ? UV_FS_COPYFILE_FICLONE : 0) | (fl & 4 ? UV_FS_COPYFILE_FICLONE_FORCE : 0), CB), &req);
         uv_fs_req_cleanup(&req);
       }
       printf("copyfile %s\n", rs(r));
